@@ -16,6 +16,7 @@ gen.NAME_CLASSES["exp_names"] = ["A", "B", "Car", "x1", "_u", "9lives", "ñandú
 SPLOT_NAMES = ("plain", "space", "punct", "keyword", "lead", "nonascii", "long")
 KINDS = ("mandatory", "optional", "alternative", "or", "mutex", "card", "nn", "zero", "star")
 CLAFER_KEYWORDS = {"xor", "or", "mux", "not", "abstract"}
+gen.NAME_CLASSES["clafer_kw"] = ["xor", "or", "mux", "not", "abstract", "Xor", "NOT"]
 
 
 # ------------------------------------------------------------------------------ SXFM interpreter
@@ -498,7 +499,7 @@ def run_pl(ctx):
 def clafer_model(g, n):
     """Clafer fragment: a feature's children are individually mandatory/optional, or one group"""
     rng = g.rng
-    names = [x for x in g.names(n + 5, ("plain", "space", "punct", "lead", "nonascii")) if x not in CLAFER_KEYWORDS]
+    names = g.names(n + 5, ("plain", "space", "punct", "lead", "nonascii", "clafer_kw"))
     it = iter(names)
     root = spec.F(next(it))
     budget = [n - 1]
@@ -586,5 +587,12 @@ def run_clafer(ctx):
             one("fragment", clafer_model(g, n), n >= 2)
         for label, m in ctc_stream(ctx):
             one(label, m, True)
+        # features and attributes called like the words the writer emits as keywords
+        kw = gen.free_model([OP("XOR", T("not"), OP("OR", T("xor"), OP("NOT", T("or")))), OP("IMPLIES", T("mux"), T("abstract"))],
+                            names=("not", "xor", "or", "mux", "abstract"))
+        one("keyword-names", kw, True)
+        kw2 = dict(root=spec.F("or", [spec.R(1, 1, [spec.F("xor"), spec.F("mux")]), ]), ctcs=[("c", OP("EXCLUDES", T("xor"), T("or")))])
+        kw2["root"]["attrs"].append(spec.A("not", default=3))
+        one("keyword-names", kw2, True)
     finally:
         sc.close()
